@@ -243,10 +243,13 @@ func (z *ZodUnion[T, R]) PrefaultFunc(fn func() T) *ZodUnion[T, R] {
 	return z.withInternals(in)
 }
 
-// Meta attaches metadata to this schema.
+// Meta returns a new schema with the given metadata stored in the global
+// registry; the receiver and its registry entry are unchanged.
 func (z *ZodUnion[T, R]) Meta(meta core.GlobalMeta) *ZodUnion[T, R] {
-	core.GlobalRegistry.Add(z, meta)
-	return z
+	in := z.internals.Clone()
+	clone := z.withInternals(in)
+	core.GlobalRegistry.Add(clone, meta)
+	return clone
 }
 
 // Describe sets a human-readable description for this schema.
